@@ -52,6 +52,8 @@ var (
 	flagV       = flag.Bool("v", false, "print traces and events of every case")
 	flagEmit    = flag.Bool("emit", false, "write the embedded hand-written cases to -dir and exit")
 	flagNoC     = flag.Bool("noc", false, "interpreter only")
+	flagVerbose = flag.Bool("rej", false, "matrix mode: also list rejected variants")
+	flagMatrix  = flag.String("matrix", "", "enumerate every variant of this family: accepted / rejected / first event (interpreter only)")
 	flagBench   = flag.Int("bench", 0, "repeat Compile+Interpret of every case N times and report the time")
 	flagKeep    = flag.Bool("keep", false, "keep generated C")
 	flagRebuild = flag.Bool("rebuild", false, "rebuild wuffs-c and the base C even if cached")
@@ -66,6 +68,10 @@ func main() {
 	}
 	if *flagGen {
 		genMode()
+		return
+	}
+	if *flagMatrix != "" {
+		matrixMode()
 		return
 	}
 	files, err := filepath.Glob(filepath.Join(*flagDir, "*.json"))
